@@ -61,6 +61,10 @@ def generate(seed, tier="quick", **kw):
                 o2[f] = not o2[f]
         if r.random() < 0.6:
             o2["words"] = list(o["words"]) if o["words"] and r.random() < 0.6 else ["kiwi", "zzother"]
+            if r.random() < 0.5:
+                o2["words"] = o2["words"] + [r.choice(["via", "description", "remark", "permit", "hostname", "contact", "core"])]
+                if r.random() < 0.7:
+                    o2["salt"] = o["salt"]
         if not (o2["pwd"] or o2["ip"] or o2["words"] or o2["as"]):
             o2["ip"] = True
         pre_b = {"opts": o2}
